@@ -1711,6 +1711,9 @@ class Interp:
                 # a slice whose reads are being checked against a schema is handed to code the interpreter cannot follow: whatever it would
                 # consume is unknown - an analysis error, never a silent "nothing was read"
                 raise Fail(f'a typestate slice is passed to a callable the interpreter cannot follow: {vrepr(f)[:60]}')
+            if isinstance(a, BA) or (isinstance(a, Inst) and a.native is not None):
+                # a mutable model object of a library class goes into code the interpreter cannot follow: what happens to it is unknown
+                raise Fail(f'a bit container is passed to a callable the interpreter cannot follow: {vrepr(f)[:60]}')
         return Term('call', f, *args)
 
     def construct(self, cls, args, kw, n=None):
